@@ -299,6 +299,25 @@ class C15Runner:
                   connections=[{"src": "r0", "dst": "r1"}, {"src": "r1", "dst": "r2"}, {"src": "r2", "dst": "r3"},
                                {"src": "mem_a", "dst": "r0"}, {"src": "core", "dst": "r1"}, {"src": "mem_b", "dst": "r3"}])
         cases.append(("src-chain", ch))
+        # a window that reaches the top of the address space (rendered with end = 0)
+        tp = gen_desc.base_cfg(rng, "topwin", "axi", "ID", 32)
+        tp.update(endpoints=[{"name": "core", "mgr_port_protocol": ["axi_in"]},
+                             {"name": "ram", "addr_range": {"start": 0x8000_0000, "size": 0x1000_0000}, "sbr_port_protocol": ["axi_out"]},
+                             {"name": "rom", "addr_range": {"start": 0xFFFF_0000, "end": 0x1_0000_0000}, "sbr_port_protocol": ["axi_out"]}],
+                  routers=[{"name": "xbar"}],
+                  connections=[{"src": e, "dst": "xbar"} for e in ("core", "ram", "rom")])
+        cases.append(("top-window", tp))
+        # two manager-side protocols of the same widths (the first declared one names the configuration)
+        tm = gen_desc.base_cfg(rng, "twomgr", "axi", "ID", 32)
+        extra = dict(tm["protocols"][0]); extra["name"] = "dma_in"
+        tm["protocols"] = tm["protocols"] + [extra]
+        tm.update(endpoints=[{"name": "core", "array": [2], "mgr_port_protocol": ["axi_in"]},
+                             {"name": "dma", "mgr_port_protocol": ["dma_in"]},
+                             {"name": "ram", "addr_range": {"start": 0x8000_0000, "size": 0x1000_0000}, "sbr_port_protocol": ["axi_out"]}],
+                  routers=[{"name": "xbar"}],
+                  connections=[{"src": "core", "dst": "xbar", "src_range": [[0, 1]], "allow_multi": True},
+                               {"src": "dma", "dst": "xbar"}, {"src": "ram", "dst": "xbar"}])
+        cases.append(("two-mgr-protocols", tm))
         # degenerate widths: one column / one row under XY (zero-bit coordinate fields)
         for (m, n, sides) in [(1, 3, ["North"]), (3, 1, ["East"])]:
             c = gen_desc.gen_mesh(rng, "XY", rng.choice(["axi", "narrow-wide"]), m=m, n=n, sides=sides, partial_local=False)
